@@ -314,6 +314,20 @@ stage("tv_fir", extra=("param",))(
 stage("tv_iir", extra=("param", "param"))(
   (lambda P, i, p: (S(P, i[1]) / (1 - S(P, i[2]) * P.lf.z ** -1))(i[0]),
    lambda i, p: M.m_lockstep(i)))
+# sums and differences of a time-varying IIR filter and an FIR filter / a
+# constant (the complementary filter 1 - lowpass(cutoff stream) and the like)
+stage("tv_iir_pm_fir", extra=("param",),
+      params=lambda W: {"how": W.pick("tvsum", ["f+c", "c-f", "f-fir",
+                                                 "fir+f", "1-lowpass"])})(
+  (lambda P, i, p: {
+     "f+c": lambda f, z: f + 2,
+     "c-f": lambda f, z: 1 - f,
+     "f-fir": lambda f, z: f - (1 + .5 * z ** -1),
+     "fir+f": lambda f, z: (2 + z ** -2) + f,
+     "1-lowpass": lambda f, z: 1 - P.lf.lowpass(S(P, i[1])),
+   }[p["how"]]((.5 / (1 - S(P, i[1]) * P.lf.z ** -1))
+               if p["how"] != "1-lowpass" else None, P.lf.z)(i[0]),
+   lambda i, p: M.m_lockstep(i)))
 stage("tv_gain_a0", extra=("param",))(
   (lambda P, i, p: P.lf.ZFilter([1, 1], [S(P, i[1]), .5])(i[0]),
    lambda i, p: M.m_lockstep(i)))
